@@ -66,7 +66,7 @@ theorem decodeU_ptr_ptr (f : Nat) (c : Codec) (b : Bytes) (fl : Flags) :
 def lpF : Fields := .cons "L" "" false (.slice (.ptr (.int .i32))) .nil
 theorem lp_codec : codecOf (.struct lpF) = .struct (.cons 1 false true false (.slice (.ptr .int32) 1 .varint false) .nil) := by
   have hm : (lookupProtobuf "").bind parseStructTag = none := modelTag_empty
-  simp [lpF, codecOf, fieldsOf, hm, fieldCodecOf, isStructBase, baseTy, Codec.wire]
+  simp [lpF, codecOf, fieldsOf, hm, fieldCodecOf, isStructBase, embBase, baseTy, Codec.wire]
 
 /-- proto-nil-ptr-in-collection: `struct{L []*int32}{L: {nil}}` is written as the single byte `08` — a tag without a
 value, which no protobuf parser accepts -/
@@ -79,7 +79,7 @@ theorem nil_elem_not_wire :
 def ppF : Fields := .cons "P" "" false (.ptr (.ptr (.int .i32))) .nil
 theorem pp_codec : codecOf (.struct ppF) = .struct (.cons 1 false false false (.ptr (.ptr .int32)) .nil) := by
   have hm : (lookupProtobuf "").bind parseStructTag = none := modelTag_empty
-  simp [ppF, codecOf, fieldsOf, hm, fieldCodecOf, isStructBase, baseTy, Codec.wire]
+  simp [ppF, codecOf, fieldsOf, hm, fieldCodecOf, isStructBase, embBase, baseTy, Codec.wire]
 
 /-- proto-ptr-to-empty-encoding, on `**T`: `struct{P **int32}` with `P` pointing to a nil `*int32` writes nothing and is
 read back with `P == nil` -/
